@@ -75,6 +75,7 @@ class Aggregate:
         # violations: list of (batch, index, seed, trace, violations, hang)
         self.violations: list = []
         self.errors: list = []  # harness errors (strings)
+        self.hangs: list = []  # runs over budget in a property without a termination clause (strings)
         self.digests: dict = {}  # (batch, index) -> digest, only for sampled indices
 
     def add(self, batch: str, index: int, seed: int, trace, res: Result, keep_digest: bool, chunk_start: int = 0):
@@ -125,4 +126,5 @@ class Aggregate:
             self._sample(name, s[0], s[1], s[2], s[3])
         self.violations.extend(other.violations)
         self.errors.extend(other.errors)
+        self.hangs.extend(other.hangs)
         self.digests.update(other.digests)
